@@ -911,25 +911,32 @@ def random_rows(run):
 def workload(run):
     fixed_cases(run)
     lmax = 6 if run.tier == "quick" else 8
-    idx, complete = 0, True
+    idx, mine, complete = 0, 0, True
     for L in range(1, lmax + 1):
         for arr in itertools.product((0, 1, 2), repeat=L):
             idx += 1
             if not run.mine(idx):
                 continue
             exhaustive_suite(run, arr)
-            if idx % 64 == 0 and run.out_of_time(0.6):
+            mine += 1
+            # lengths <= 5 are a fixed amount of work (363 arrays): only the watchdog may cut them
+            if mine % 16 == 0 and run.out_of_time(0.6 if L > 5 else 3.0):
                 complete = False
                 break
         if not complete:
             break
-        run.note("exhaustive_arrays_complete_up_to_length", L)
+        run.count("exhaustive_len%d_shards_complete" % L)
     run.note("exhaustive_arrays_enumerated", idx)
-    if not complete and run.tier == "quick":
-        run.count("exhaustive_cut_short")
-    while not run.out_of_time(0.92):
+    if not complete:
+        run.count("exhaustive_cut_short_shards")
+        if L <= 5:
+            run.inconclusive("exhaustive arrays of length <= 5 cut short by the watchdog")
+    rounds = 0
+    while rounds < 40 or not run.out_of_time(0.92):
+        rounds += 1
         for _ in range(20):
             random_rows(run)
+    run.count("random_row_rounds", rounds)
 
 
 def replay(run, case):
